@@ -1210,6 +1210,14 @@ func (ec *evalCtx) convert(arg CExpr, ty types.Type) (TV, error) {
 	if _, isIface := under(ty).(*types.Interface); isIface {
 		return TV{T: c.makeIface(v.T, v.Ty), Ty: ty}, nil
 	}
+	if isString(ty) && isSliceOfBytes(v.Ty) {
+		// the same term the executed conversion string(b) denotes (execConvert): a function of the bytes
+		// b currently holds
+		c.sc.declFun("bytes_to_str", []Sort{arraySort(c.sc.idxSort(), c.sortOf(types.Typ[types.Uint8])), c.sc.idxSort(), c.sc.idxSort()}, SStr)
+		bs := c.sortOf(types.Typ[types.Uint8])
+		arr := sel(c.get(ec.st, c.regElem(bs)), slPtr(v.T), arraySort(c.sc.idxSort(), bs))
+		return TV{T: mk(SStr, "bytes_to_str", arr, c.slOff(v.T), c.slLen(v.T)), Ty: ty}, nil
+	}
 	return TV{}, fmt.Errorf("unsupported conversion %s -> %s in contract", v.Ty, ty)
 }
 
@@ -1224,7 +1232,7 @@ func (ec *evalCtx) pureCall(fn *types.Func, recv *TV, args []CExpr) (TV, error) 
 			key = "(" + types.TypeString(recv.Ty, nil) + ")." + fn.Name()
 		}
 	}
-	con := c.v.findContract(key)
+	con := c.v.findContract(key, c.fromPkg())
 	if con == nil || !con.Pure {
 		return TV{}, fmt.Errorf("%s is called in a contract but is not declared pure", shortKey(key))
 	}
